@@ -215,6 +215,9 @@ def run_scenario(spec, tier, open_classes, focus=None, validate_max=12, timeout_
         rsc.backend = "real"
         try:
             r_out, r_failed, r_obs = core.run_concrete(rsc.run, model)
+            if had_violation and r_failed:
+                validations["done"] += 1    # the real code fails on this path's model too: settled by the replay below
+                return
             r_failed = [lb for lb in r_failed if not any(lb == v["label"] or v["family"] in lb for v in st.violations)]
             r_failed = [] if st.violated_families else r_failed
             if any(z3.is_true(m.eval(x, model_completion=True)) for x in ctx.excluded):
@@ -261,6 +264,11 @@ def run_scenario(spec, tier, open_classes, focus=None, validate_max=12, timeout_
             r_out, r_failed, _ = core.run_concrete(rsc.run, v["model"])
             ok = v["label"] in r_failed
             why = None if ok else f"real run outcome={r_out!r} failed={r_failed[:4]}"
+            if not ok and r_failed:
+                # the real code breaks the scenario on this input, at another obligation than the model's (typically the
+                # real run stops earlier): a replayed violation all the same, reported under the obligation that failed
+                ok, why = True, f"model failed {v['label']!r}; the real run fails {r_failed[0]!r} (outcome {r_out!r})"
+                v = dict(v, label=r_failed[0])
         except Exception as e:  # noqa: BLE001
             ok, why = False, f"real run raised {e!r}"
         if not ok and getattr(sc, "float_sensitive", False):
